@@ -19,12 +19,19 @@ def proxy_script(seq, scen, capture, rng=None):
         if capture == "PUB":
             ops += [{"op": "psend", "c": 5, "m": [hx(b"\x01")]}, {"op": "settle"}]
     nq, nr = {1: 0, 2: 0}, 0
+    cur = {1: 1, 2: 2}        # the connection each client is on
     for o in seq:
         if o in ("req1", "req2"):
             c = int(o[-1]); nq[c] += 1
             tag = b"c%dq%d.%d" % (c, nq[c], scen)
             m = [b""] + payload(nq[c] + c, tag)
-            ops.append({"op": "psend", "c": c, "m": [hx(f) for f in m], "cuts": S.cuts(rng, m) if rng else []})
+            ops.append({"op": "psend", "c": cur[c], "m": [hx(f) for f in m], "cuts": S.cuts(rng, m) if rng else []})
+        elif o == "restart2":
+            # client 2 closes its connection in an orderly way, the proxy notices, and the client comes back under its identity
+            if cur[2] < 8:
+                new = 6 if cur[2] == 2 else cur[2] + 1
+                ops += [{"op": "pclose", "c": cur[2]}, {"op": "drive"}, {"op": "attach", "c": new, "side": "front", "ptype": "DEALER", "ident": hx("cli2")}]
+                cur[2] = new
         elif o in ("rep1", "rep2"):
             c = int(o[-1]); nr += 1
             tag = b"r%d.to%d.%d" % (nr, c, scen)
@@ -56,6 +63,9 @@ def run(chk, replay=None):
     caps = ["PUSH", "none", "PUB", "PUSH"]
     for seq in rrlib.gen_seqs(chk, OPS, 6 if thorough else 5, ["drive"], "proxy"):
         scen += 1; fam.append(proxy_script(seq, scen, caps[scen % 4]))
+    for seq in rrlib.gen_seqs(chk, ["req2", "rep2", "restart2", "drive", "req1"], 6 if thorough else 5, ["drive", "restart2"], "proxyrestart"):
+        if "restart2" in seq and "rep2" in seq[seq.index("restart2"):]:
+            scen += 1; fam.append(proxy_script(seq, scen, caps[scen % 4]))
     for i in range(1500 if thorough else 200):
         scen += 1
         fam.append(proxy_script([rng.choice(OPS) for _ in range(rng.randint(6, 20))], scen, rng.choice(caps), rng))
